@@ -246,7 +246,8 @@ impl<'a> Gen<'a> {
             match want {
                 Ty::Bool => "\"notbool\"",
                 Ty::Int => "\"notint\"",
-                Ty::Str => "17",
+                // wrong type, or a function that fails on its data (invalid regular expression, missing format argument)
+                Ty::Str => *self.r.pick(&["17", "17", "(replace \"a-b-c\" \"(\" \"+\")", "(replace \"abc\" \"[z-a]\" \"\")", "(format \"{}{}\" 1)"]),
                 Ty::Syn | Ty::OptSyn => "3",
                 Ty::SynList | Ty::IntList | Ty::StrList => "\"notlist\"",
                 Ty::GNode => "\"notnode\"",
@@ -1123,7 +1124,14 @@ pub fn gen_program(r: &mut Rng, pool: &[Pattern], opts: &Opts) -> Program {
     if g.r.chance(1, 3) {
         g.feature("shorthand-decl");
         let name = "sh1".to_string();
-        text.push_str(&format!("attribute {} = p => shk = p, shlen = (format \"[{{}}]\" p)\n", name));
+        // the checker does not visit shorthands: a parameter named like a global is only refused at run time
+        let param = if !g.globals.is_empty() && g.r.chance(1, 4) {
+            g.feature("shorthand-param-hides-global");
+            g.r.pick(&g.globals.clone()).0.clone()
+        } else {
+            "p".to_string()
+        };
+        text.push_str(&format!("attribute {} = {} => shk = {}, shlen = (format \"[{{}}]\" {})\n", name, param, param, param));
         g.shorthands.push(name);
         if g.r.chance(1, 3) {
             text.push_str("attribute sh2 = q => sh1 = q, shq\n");
@@ -1249,4 +1257,52 @@ pub fn gen_program(r: &mut Rng, pool: &[Pattern], opts: &Opts) -> Program {
     let stanza_count = stanzas.len();
     let static_fault = header_fault.or(g.sf.clone());
     Program { text, header, stanzas, globals: globals_out, stanza_count, has_fault: g.has_fault, features: g.features, static_fault }
+}
+
+/// Programs OUTSIDE the accepted language whose rejection the evaluation modes rely on (C02, C08): a value that
+/// depends on a scoped variable with live data reaches a place that lazy evaluation runs eagerly on the strength of
+/// the checker's "local" certificate (scan subject, condition, loop source). The scoped variable is defined on the
+/// same node just before, once per match, so that a checker which wrongly accepts the program makes lazy evaluation
+/// force the variable between two definitions while strict evaluation succeeds.
+/// Returns (text, description of the form).
+pub fn live_nonlocal_program(r: &mut Rng) -> (String, String) {
+    let (pat, cap, definer, reader, form) = live_nonlocal_parts(r);
+    (format!("{} {{\n{}{}}}\n", pat, definer, reader), form)
+}
+
+/// The same as two stanzas on the same pattern (C08): a definer and a reader. If the reader is accepted, the order of
+/// the two stanzas decides whether the eagerly evaluated read comes before or after the definitions.
+pub fn live_nonlocal_pair(r: &mut Rng) -> (String, String, String) {
+    let (pat, _cap, definer, reader, form) = live_nonlocal_parts(r);
+    (format!("{} {{\n{}}}\n", pat, definer), format!("{} {{\n{}}}\n", pat, reader), form)
+}
+
+/// (pattern, capture, definer statement, reader statements, form)
+fn live_nonlocal_parts(r: &mut Rng) -> (String, String, String, String, String) {
+    let (pat, cap) = *r.pick(&[("(identifier) @lv", "@lv"), ("(integer) @lv", "@lv"), ("(call function: (_) @lv)", "@lv"), ("(assignment left: (_) @lv)", "@lv")]);
+    let read = format!("{}.zsv", cap);
+    let (prefix, name, how): (String, String, &str) = match r.below(12) {
+        0 => (String::new(), read.clone(), "direct"),
+        1 => (format!("  let zl = {}\n", read), "zl".into(), "let"),
+        2 => (format!("  var zm = {}\n", read), "zm".into(), "var"),
+        3 => (format!("  var zm = \"a\"\n  set zm = {}\n", read), "zm".into(), "set"),
+        4 => (format!("  var zm = \"a\"\n  if #true {{\n    set zm = {}\n  }} else {{\n    set zm = \"b\"\n  }}\n", read), "zm".into(), "set-in-earlier-arm"),
+        5 => (format!("  var zm = \"a\"\n  if #false {{\n    set zm = \"c\"\n  }} elif #true {{\n    set zm = {}\n  }} else {{\n    set zm = \"b\"\n  }}\n", read), "zm".into(), "set-in-middle-arm"),
+        6 => (format!("  let zl = (format \"{{}}\" {})\n", read), "zl".into(), "call-argument"),
+        7 => (format!("  let zi = [{}, \"k\"]\n  let zl = (join zi)\n", read), "zl".into(), "list-element"),
+        // a non-local argument that is not the last one
+        8 => (String::new(), format!("(format \"{{}}{{}}\" {} \"a\")", read), "call-non-last-argument-direct"),
+        9 => (format!("  let zl = (replace {} \"a\" \"b\")\n", read), "zl".into(), "call-first-argument"),
+        10 => (format!("  let zl = (format \"{{}}{{}}{{}}\" \"p\" {} \"q\")\n", read), "zl".into(), "call-middle-argument"),
+        _ => (format!("  var zm = \"a\"\n  for zq in [1] {{\n    set zm = {}\n  }}\n  set zm = (format \"{{}}\" zm)\n", read), "zm".into(), "set-in-loop-then-self"),
+    };
+    let (consumer, what): (String, &str) = match r.below(5) {
+        0 => (format!("  scan {} {{\n    \".\" {{\n      node zn\n    }}\n  }}\n", name), "scan"),
+        1 => (format!("  if (eq {} \"a\") {{\n    node zn\n  }}\n", name), "if"),
+        2 => (format!("  if #false {{\n  }} elif (not (eq {} \"a\")) {{\n    node zn\n  }}\n", name), "elif"),
+        3 => (format!("  for zi2 in [{}] {{\n    node zn\n  }}\n", name), "for"),
+        _ => (format!("  node zc\n  attr (zc) els = [ zq2 for zq2 in [{}] ]\n", name), "comprehension"),
+    };
+    let definer = format!("  let {} = (source-text {})\n", read, cap);
+    (pat.to_string(), cap.to_string(), definer, format!("{}{}", prefix, consumer), format!("{}-into-{}", how, what))
 }
